@@ -185,9 +185,15 @@ class SymArray:
         if n == 'clip':
             x, lo, hi = args[:3]; x = lift(x)
             if isinstance(lo, SymArray) or isinstance(hi, SymArray): raise Undecided('symbolic clip bounds')
-            if x.dtype.kind != 'f': raise Undecided('clip on integer array')
+            rdt = np.clip(np.zeros(1, dtype=x.dtype), lo, hi).dtype          # numpy's own result dtype (NEP 50 weak scalars)
+            if x.dtype.kind != 'f':
+                if rdt.kind == 'f': xt = z3.ToReal(x.term); lo_t, hi_t = _rv(lo), _rv(hi)
+                else:
+                    if float(lo) != int(lo) or float(hi) != int(hi): raise Undecided('integer clip with fractional bounds')
+                    xt = x.term; lo_t, hi_t = z3.IntVal(int(lo)), z3.IntVal(int(hi))
+                return SymArray(z3.If(xt < lo_t, lo_t, z3.If(xt > hi_t, hi_t, xt)), rdt, x.shape)
             lo_t, hi_t = _rv(lo), _rv(hi)
-            return SymArray(z3.If(x.term < lo_t, lo_t, z3.If(x.term > hi_t, hi_t, x.term)), x.dtype, x.shape)
+            return SymArray(z3.If(x.term < lo_t, lo_t, z3.If(x.term > hi_t, hi_t, x.term)), rdt, x.shape)
         if n == 'squeeze':
             if kwargs.get('axis') is not None or len(args) > 1: raise Undecided('squeeze axis')
             return SymArray(self.term, self.dtype, tuple(d for d in self.shape if d != 1))
